@@ -3,6 +3,7 @@ import zlib
 import warnings
 from tlexport.tlsversion import TlsVersion
 from tlexport.tlsrecord import TlsRecord
+from tlexport import _verif
 
 from enum import Enum
 # Suppress the deprecation warning from the cryptography module.
@@ -422,6 +423,7 @@ class Decryptor:
         logging.info(f"last cipher block iv: {ciphertext[-index:]}")
         return plaintext
 
+    @_verif.traced("decrypt", _verif.decrypt_before, _verif.decrypt_after)
     def decrypt(self, record, isserver):
         # TLS 1.3 AEAD Cipher
         if self.tls_version == TlsVersion.TLS13 and self.cipher_type == EncryptionType.AEAD:
@@ -444,6 +446,7 @@ class Decryptor:
                                                                                       TlsVersion.SSL30]:
             return self.decrypt_last_block_iv_cbc(record, isserver)
 
+    @_verif.traced("keyswitch", None, _verif.update_keys_after)
     def update_keys(self, isserver):
         if isserver:
             logging.info("")
